@@ -985,7 +985,12 @@ pub fn check(s: &Session, h: &History, stats: &mut Stats) -> Option<Violation> {
             });
         }
     }
-    // a healthy document is still served
+    // a healthy document is still served (asked only of sessions that still contain the question:
+    // a shrunk replay may have lost it)
+    let asks_healthy = s.ops.iter().any(|p| matches!(&p.op, Op::Request { id: 9000, .. }));
+    if !asks_healthy {
+        return None;
+    }
     match resp.get(&9000).and_then(|v| v.first()) {
         Some(r) if r.get("result").and_then(|t| t.as_str()).map_or(false, |t| t.starts_with("SOURCE_FILE@0..22")) => {}
         other => {
